@@ -1,6 +1,6 @@
 SM = ['smenable', 'smenabled', 'smresume', 'smresumed', 'smack', 'smrequest']
 def I(e, **kw):
-    d = dict(name=e, entry='h_' + e, unwind=8, timeout_s=200, mem_gb=6, bound='strings <= 2 arbitrary UTF-16 units, integers full range'); d.update(kw); return d
+    d = dict(name=e, entry='h_' + e, unwind=8, timeout_s=300, mem_gb=6, bound='strings <= 2 arbitrary UTF-16 units, integers full range'); d.update(kw); return d
 SPEC = dict(
     property='C01',
     groups=[
